@@ -1,6 +1,6 @@
 """C19 — configuration, trajectory and input-template codecs are lossless.
 
-The package has eight parts, each with its own model file, lemma file and tie module:
+The package has nine parts, each with its own model file, lemma file and tie module:
   tmpl   c19_tmpl.py    _modify_input / _read_input_settings / write_for_run     (Model/Template.lean)
   cp2k   c19_cp2k.py    CP2K section tree editor                                  (Model/TemplateCp2k.lean)
   wfrvel c19_wfrvel.py  cp2k.write_for_run_vel (the engine's own CP2K edit)       (Model/TemplateCp2k.lean)
@@ -9,6 +9,7 @@ The package has eight parts, each with its own model file, lemma file and tie mo
   hard   c19_hard.py    call history / purity / boundaries (same file name rewritten, reused dicts, ...)  (tie-only)
   box    c19_box.py     nine-component box order: box_matrix_to_list, TRR→g96, CP2K cell   (Model/CodecBox.lean)
   boxdata c19_boxdata.py  CP2K cell reader read_box_data / read_cp2k_box              (Model/CodecBoxData.lean)
+  uni    c19_uni.py     the xyz / g96 readers and the CP2K editor on non-ASCII texts (all of str.isspace)  (Model/CodecUni.lean)
 Each part generates its cases from ctx.rng, runs the REAL readers/writers/editors on temp files under
 /var/tmp, compares with the compiled Lean driver (drv_c19) and evaluates the property predicates on
 the implementation's own output.
@@ -26,7 +27,7 @@ import time
 from common import CORPUS
 
 CORPUS_IN_RUN = True     # run() replays corpus/C19/*.json itself (per part), see _corpus
-PARTS = ["c19_tmpl", "c19_cp2k", "c19_wfrvel", "c19_codec", "c19_lmp", "c19_box", "c19_boxdata", "c19_hard"]
+PARTS = ["c19_tmpl", "c19_cp2k", "c19_wfrvel", "c19_codec", "c19_lmp", "c19_box", "c19_boxdata", "c19_hard", "c19_uni"]
 MISSING: list = []
 
 
